@@ -127,6 +127,11 @@ var c04Core = [][2]string{
 	{"SuspendedAddressList", "tlb.SuspendedAddressList"},
 	{"AccountDispatchQueue", "tlb.AccountDispatchQueue"},
 	{"BlockInfoPart", "tlb.BlockInfoPart"},
+	{"WalletDataV1V2", "wallet.DataV1V2"},
+	{"WalletDataV3", "wallet.DataV3"},
+	{"WalletDataV4", "wallet.DataV4"},
+	{"WalletDataHighloadV2", "wallet.DataHighloadV2"},
+	{"WalletDataV5R1", "wallet.DataV5R1"},
 }
 
 // the Go type is found from the descriptor: the case carries the schema name,
@@ -251,7 +256,11 @@ func execC04ExtMsg(in sx.V) sx.V {
 
 func c04Spec(c *Ctx, fam, schema string, ct *c03Type, v sx.V) {
 	in := sx.L(sx.A(schema), sx.Str(ct.name), ct.d.Sx(), v)
-	cls := fam + "|" + schema + "|" + kindName(ct.d)
+	sn := schema
+	if strings.HasPrefix(sn, "ConfigParam") {
+		sn = "ConfigParam"
+	}
+	cls := fam + "|" + sn + "|" + kindName(ct.d)
 	if schema == "prim" {
 		cls = c03Class(fam+"|"+schema, ct, v)
 	}
@@ -336,6 +345,10 @@ func genC04(c *Ctx) {
 	// 2c. exotic cells (library, pruned branch, Merkle proof / update) through every boc.Cell
 	//     position: type, level mask and hash are kept; decode -> encode reproduces the hash
 	c03ExoticFamily(c, "c04")
+	// 2f. wallet bodies and state-init data over option values at the edge of their domain, and
+	//     every builder that embeds an account address, for addresses of special shape
+	c04WalletOptions(c)
+	c04Addresses(c)
 	// 3. the external-message envelope of ton.CreateExternalMessage
 	mt, st := c03Types["tlb.Message"], c03Types["tlb.StateInit"]
 	for i := 0; i < c.Scale(120, 2000); i++ {
@@ -347,6 +360,13 @@ func genC04(c *Ctx) {
 			wc = -1
 		}
 		addr := c.R.Bytes(32)
+		if i%3 == 0 {
+			sh := c04AddrShape(c, i/3)
+			addr = sh[:]
+		}
+		if i%7 == 0 {
+			wc = []int64{-128, 127, 1}[(i/7)%3]
+		}
 		var ab bytes.Buffer
 		for _, b := range addr {
 			for j := 7; j >= 0; j-- {
